@@ -1015,4 +1015,634 @@ Proof.
   - intros k Hk. simpl in Hk. unfold g. intros E. apply alloc_inj in E. lia.
 Qed.
 
+(* 10a. Thread::join on a fiber that has not exited: g remembers the (already unlinked) fiber f as its joiner *)
+Lemma inv_set_joiner : forall g f s, inv s -> Cc s f = 0 -> Wc s f = 0 -> fsO s f <> Some FCompleted ->
+  (forall g0, ~ pjoin s g0 f) -> (forall k, nsp s <= k -> alloc k <> f) ->
+  inv (updf g (fun r => with_joiner r (Some f)) s).
+Proof.
+  intros g f s I HCf HWf Hff Hpf Hfr.
+  set (s' := updf g (fun r => with_joiner r (Some f)) s).
+  destruct (fobs_upd g (fun r => with_joiner r (Some f)) s s' eq_refl) as (Ho & Hf1 & Hf2 & Hf3 & Hk).
+  assert (Hfs : forall h, fsO s' h = fsO s h).
+  { intros h. destruct (Nat.eq_dec h g) as [->|Hne].
+    - rewrite Hf1. unfold fsO. destruct (fget g (fibers s)); auto.
+    - destruct (Ho h Hne) as (A & _). exact A. }
+  assert (Hpo : forall h, pendO s' h = pendO s h).
+  { intros h. destruct (Nat.eq_dec h g) as [->|Hne].
+    - rewrite Hf2. unfold pendO. destruct (fget g (fibers s)); auto.
+    - destruct (Ho h Hne) as (_ & A & _). exact A. }
+  assert (Hjo : forall h, h <> g -> joinO s' h = joinO s h).
+  { intros h Hne. destruct (Ho h Hne) as (_ & _ & A). exact A. }
+  assert (Hjg : forall j, joinO s' g = Some (Some j) -> j = f).
+  { intros j. rewrite Hf3. destruct (fget g (fibers s)); simpl; [|discriminate]. congruence. }
+  assert (HPJo : forall h j, h <> g -> (pjoin s' h j <-> pjoin s h j)).
+  { intros h j Hne. unfold pjoin. rewrite Hjo, Hfs by auto. tauto. }
+  assert (HPJg : forall j, pjoin s' g j -> j = f) by (intros j [A _]; apply Hjg; exact A).
+  constructor.
+  - apply (iA _ _ I).
+  - apply (iB _ _ I).
+  - intros h H1 H2. rewrite Hpo. apply (iC _ _ I h H1 H2).
+  - intros h ns P. rewrite Hpo in P. apply (iD _ _ I h ns P).
+  - intros h Hh. rewrite Hfs in Hh. apply (iH _ _ I h Hh).
+  - intros h j Hpj. destruct (Nat.eq_dec h g) as [->|Hne].
+    + pose proof (HPJg j Hpj). subst j. split; [exact HCf|]. split; [exact HWf|]. split; [|rewrite Hfs; exact Hff].
+      intros g' Hg'. destruct (Nat.eq_dec g' g) as [->|Hne']; auto.
+      exfalso. apply HPJo in Hg'; auto. apply (Hpf g' Hg').
+    + apply HPJo in Hpj; auto. destruct (iE _ _ I _ _ Hpj) as (E1 & E2 & E3 & E4).
+      split; [exact E1|]. split; [exact E2|]. split; [|rewrite Hfs; exact E4].
+      intros g' Hg'. destruct (Nat.eq_dec g' g) as [->|Hne'].
+      * pose proof (HPJg j Hg'). subst j. exfalso. apply (Hpf h Hpj).
+      * apply HPJo in Hg'; auto.
+  - intros k Hk'. destruct (iF _ _ I k Hk') as (G1 & G2 & G3 & G4).
+    split; [exact G1|]. split; [exact G2|]. split; [rewrite Hfs; exact G3|].
+    intros h. destruct (Nat.eq_dec h g) as [->|Hne].
+    + intros H. apply Hjg in H. apply (Hfr k Hk'). exact H.
+    + rewrite Hjo by auto. apply G4.
+  - rewrite Hk. apply (iK _ _ I).
+Qed.
+
+(* 10b. delete of the FiberBase of a fiber that has completed *)
+Lemma inv_del : forall g s s', inv s -> fsO s g = Some FCompleted ->
+  cur s' = cur s -> runq s' = runq s -> sleepm s' = sleepm s -> waitq s' = waitq s -> nsp s' = nsp s -> now s' = now s ->
+  fibers s' = fdel g (fibers s) -> inv s'.
+Proof.
+  intros g s s' I Hg Ec Er Es Ew En Et Ef.
+  destruct (iH _ _ I g Hg) as [HCg HWg].
+  assert (HC : forall h, Cc s' h = Cc s h) by (intros; unfold Cc; rewrite Ec, Er, Es; auto).
+  assert (HW : forall h, Wc s' h = Wc s h) by (intros; unfold Wc; rewrite Ew; auto).
+  assert (Hfo : forall h, h <> g -> fget h (fibers s') = fget h (fibers s)) by (intros; rewrite Ef; apply fget_fdel_other; auto).
+  assert (Hfg : fget g (fibers s') = None) by (rewrite Ef; apply fget_fdel_same; apply (iK _ _ I)).
+  assert (Hfs : forall h, h <> g -> fsO s' h = fsO s h) by (intros; unfold fsO; rewrite Hfo; auto).
+  assert (Hpo : forall h, h <> g -> pendO s' h = pendO s h) by (intros; unfold pendO; rewrite Hfo; auto).
+  assert (Hjo : forall h, h <> g -> joinO s' h = joinO s h) by (intros; unfold joinO; rewrite Hfo; auto).
+  assert (HPJ : forall h j, pjoin s' h j -> h <> g /\ pjoin s h j).
+  { intros h j [A B]. destruct (Nat.eq_dec h g) as [->|Hne].
+    - unfold joinO in A. rewrite Hfg in A. discriminate.
+    - split; auto. unfold pjoin. rewrite <- Hjo, <- Hfs by auto. split; auto. }
+  constructor.
+  - intros h. rewrite HC. apply I.
+  - intros h. rewrite HW. apply I.
+  - intros h H1 H2. rewrite HW in H1. rewrite HC in H2. assert (h <> g) by (intro; subst; lia).
+    rewrite Hpo by auto. unfold wq. rewrite Ew. apply (iC _ _ I h H1 H2).
+  - intros h ns P. destruct (Nat.eq_dec h g) as [->|Hne]; [unfold pendO in P; rewrite Hfg in P; discriminate|].
+    rewrite Hpo in P by auto. rewrite HW, Es, Er, Et. apply (iD _ _ I h ns P).
+  - intros h Hh. destruct (Nat.eq_dec h g) as [->|Hne]; [unfold fsO in Hh; rewrite Hfg in Hh; discriminate|].
+    rewrite Hfs in Hh by auto. rewrite HC, HW. apply (iH _ _ I h Hh).
+  - intros h j Hpj. destruct (HPJ h j Hpj) as [Hne Hp]. destruct (iE _ _ I _ _ Hp) as (E1 & E2 & E3 & E4).
+    rewrite HC, HW. split; [exact E1|]. split; [exact E2|]. split.
+    + intros g' Hg'. destruct (HPJ g' j Hg') as [_ Hp']. apply E3. exact Hp'.
+    + destruct (Nat.eq_dec j g) as [->|Hnj]; [unfold fsO; rewrite Hfg; discriminate|rewrite Hfs by auto; exact E4].
+  - intros k Hk'. rewrite En in Hk'. destruct (iF _ _ I k Hk') as (G1 & G2 & G3 & G4).
+    assert (alloc k <> g) by (intro E; rewrite E in G3; rewrite Hg in G3; discriminate).
+    rewrite HC, HW. split; [exact G1|]. split; [exact G2|]. split; [rewrite Hfs by auto; exact G3|].
+    intros h. destruct (Nat.eq_dec h g) as [->|Hne]; [unfold joinO; rewrite Hfg; discriminate|rewrite Hjo by auto; apply G4].
+  - rewrite Ef. apply fdel_keys_nodup. apply (iK _ _ I).
+Qed.
+
+(* 11a. FiberBase::Exit: the (already unlinked) fiber is marked Completed *)
+Lemma inv_complete : forall f s, inv s -> Cc s f = 0 -> Wc s f = 0 -> (forall g0, ~ pjoin s g0 f) ->
+  inv (updf f (fun r => with_fs r FCompleted) s).
+Proof.
+  intros f s I HCf HWf Hpf.
+  set (s' := updf f (fun r => with_fs r FCompleted) s).
+  destruct (fobs_upd f (fun r => with_fs r FCompleted) s s' eq_refl) as (Ho & Hf1 & Hf2 & Hf3 & Hk).
+  assert (Hfs : forall h, h <> f -> fsO s' h = fsO s h) by (intros h Hne; destruct (Ho h Hne) as (A & _); exact A).
+  assert (Hfn : forall h, fsO s' h = None <-> fsO s h = None).
+  { intros h. destruct (Nat.eq_dec h f) as [->|Hne]; [|rewrite Hfs by auto; tauto].
+    rewrite Hf1. unfold fsO. destruct (fget f (fibers s)); simpl; [split; discriminate|tauto]. }
+  assert (Hpo : forall h, pendO s' h = pendO s h).
+  { intros h. destruct (Nat.eq_dec h f) as [->|Hne].
+    - rewrite Hf2. unfold pendO. destruct (fget f (fibers s)); auto.
+    - destruct (Ho h Hne) as (_ & A & _). exact A. }
+  assert (Hjo : forall h, joinO s' h = joinO s h).
+  { intros h. destruct (Nat.eq_dec h f) as [->|Hne].
+    - rewrite Hf3. unfold joinO. destruct (fget f (fibers s)); auto.
+    - destruct (Ho h Hne) as (_ & _ & A). exact A. }
+  assert (HPJ : forall h j, pjoin s' h j -> h <> f /\ pjoin s h j).
+  { intros h j [A B]. destruct (Nat.eq_dec h f) as [->|Hne].
+    - exfalso. apply B. rewrite Hf1. rewrite Hjo in A. unfold joinO in A. destruct (fget f (fibers s)); [reflexivity|discriminate].
+    - split; auto. unfold pjoin. rewrite <- Hjo, <- Hfs by auto. split; auto. }
+  constructor.
+  - apply (iA _ _ I).
+  - apply (iB _ _ I).
+  - intros h H1 H2. rewrite Hpo. apply (iC _ _ I h H1 H2).
+  - intros h ns P. rewrite Hpo in P. apply (iD _ _ I h ns P).
+  - intros h Hh. destruct (Nat.eq_dec h f) as [->|Hne]; [split; [exact HCf|exact HWf]|].
+    rewrite Hfs in Hh by auto. apply (iH _ _ I h Hh).
+  - intros h j Hpj. destruct (HPJ h j Hpj) as [Hne Hp]. destruct (iE _ _ I _ _ Hp) as (E1 & E2 & E3 & E4).
+    split; [exact E1|]. split; [exact E2|]. split.
+    + intros g' Hg'. destruct (HPJ g' j Hg') as [_ Hp']. apply E3. exact Hp'.
+    + assert (j <> f) by (intro; subst; apply (Hpf h Hp)). rewrite Hfs by auto. exact E4.
+  - intros k Hk'. destruct (iF _ _ I k Hk') as (G1 & G2 & G3 & G4).
+    split; [exact G1|]. split; [exact G2|]. split; [apply Hfn; exact G3|]. intros h. rewrite Hjo. apply G4.
+  - rewrite Hk. apply (iK _ _ I).
+Qed.
+
+(* 12a. SleepPreemptive erases the empty bucket of its deadline *)
+Lemma inv_erase_bucket : forall ns b s, inv s -> sm_find ns (sleepm s) = Some b -> is_nil b = true ->
+  inv (set_sleepm s (sm_erase ns (sleepm s))).
+Proof.
+  intros ns b s I Hf Hn. apply (inv_wview alloc s); auto.
+  - unfold qview, Cc. simpl. repeat split; auto.
+    + intros g. rewrite (scnt_erase_empty g ns (sleepm s) b Hf Hn). reflexivity.
+    + intros ns' g P [H|H]; [left; apply (bhas_erase ns' g ns (sleepm s) b Hf Hn H)|right; auto].
+  - apply fview_refl. reflexivity.
+Qed.
+
+(* 12b. the timed wait is over: the fiber (no longer in any wait queue) forgets its deadline *)
+Lemma inv_clear_pend : forall f u s, inv s -> Wc s f = 0 ->
+  (forall r, pend (u r) = PNone /\ joiner (u r) = joiner r /\ fs (u r) = fs r) ->
+  inv (updf f u s).
+Proof.
+  intros f u s I HWf Hu. set (s' := updf f u s).
+  destruct (fobs_upd f u s s' eq_refl) as (Ho & Hf1 & Hf2 & Hf3 & Hk).
+  assert (Hfs : forall h, fsO s' h = fsO s h).
+  { intros h. destruct (Nat.eq_dec h f) as [->|Hne].
+    - rewrite Hf1. unfold fsO. destruct (fget f (fibers s)) as [r|]; simpl; auto. destruct (Hu r) as (_ & _ & A). rewrite A. auto.
+    - destruct (Ho h Hne) as (A & _). exact A. }
+  assert (Hpo : forall h, h <> f -> pendO s' h = pendO s h) by (intros h Hne; destruct (Ho h Hne) as (_ & A & _); exact A).
+  assert (Hpf : forall p, pendO s' f = Some p -> p = PNone).
+  { intros p. rewrite Hf2. destruct (fget f (fibers s)) as [r|]; simpl; [|discriminate]. destruct (Hu r) as (A & _). rewrite A. congruence. }
+  assert (Hjo : forall h, joinO s' h = joinO s h).
+  { intros h. destruct (Nat.eq_dec h f) as [->|Hne].
+    - rewrite Hf3. unfold joinO. destruct (fget f (fibers s)) as [r|]; simpl; auto. destruct (Hu r) as (_ & A & _). rewrite A. auto.
+    - destruct (Ho h Hne) as (_ & _ & A). exact A. }
+  assert (HPJ : forall h j, pjoin s' h j <-> pjoin s h j) by (intros; unfold pjoin; rewrite Hjo, Hfs; tauto).
+  constructor.
+  - apply (iA _ _ I).
+  - apply (iB _ _ I).
+  - intros h H1 H2. change (Wc s' h) with (Wc s h) in H1. change (Cc s' h) with (Cc s h) in H2.
+    assert (h <> f) by (intro; subst; lia). rewrite Hpo by auto. apply (iC _ _ I h H1 H2).
+  - intros h ns P. destruct (Nat.eq_dec h f) as [->|Hne]; [apply Hpf in P; discriminate|].
+    rewrite Hpo in P by auto. apply (iD _ _ I h ns P).
+  - intros h Hh. rewrite Hfs in Hh. apply (iH _ _ I h Hh).
+  - intros h j Hpj. apply HPJ in Hpj. destruct (iE _ _ I _ _ Hpj) as (E1 & E2 & E3 & E4).
+    split; [exact E1|]. split; [exact E2|]. split; [intros g' Hg'; apply E3, HPJ, Hg'|rewrite Hfs; exact E4].
+  - intros k Hk'. destruct (iF _ _ I k Hk') as (G1 & G2 & G3 & G4).
+    split; [exact G1|]. split; [exact G2|]. split; [rewrite Hfs; exact G3|]. intros h. rewrite Hjo. apply G4.
+  - rewrite Hk. apply (iK _ _ I).
+Qed.
+
+(* 13. Scheduler::RunLoop: AdvanceTime, WakeUpNeeded, GetNext + Resume *)
+Lemma inv_advance : forall s, inv s -> inv (advance s).
+Proof.
+  intros s I. unfold advance. destruct (is_nil (runq s)); auto.
+  destruct (first_key (sleepm s)) as [k|]; auto.
+  destruct (N.leb_spec (now s) k); auto.
+  apply (inv_wview alloc s); auto.
+  - unfold qview, Cc. simpl. repeat split; auto.
+    intros ns g P [Hb|[Hr Hn]]; [left; auto|right; split; auto; lia].
+  - apply fview_refl. reflexivity.
+Qed.
+
+Lemma inv_wakeup : forall s, inv s -> inv (wakeup s).
+Proof.
+  intros s I. apply (inv_wview alloc s); auto.
+  - unfold qview, wakeup, Cc. simpl. repeat split; auto.
+    + intros g. rewrite cnt_app. pose proof (wake_cnt g (now s) (sleepm s)). lia.
+    + intros ns g P [Hb|[Hr Hn]].
+      * destruct (bhas_wake ns g (now s) (sleepm s) Hb) as [[Hk Hw]|Hb'].
+        -- right. rewrite cnt_app. split; [lia|auto].
+        -- left. exact Hb'.
+      * right. rewrite cnt_app. split; [lia|auto].
+  - apply fview_refl. reflexivity.
+Qed.
+
+(* GetNext took f out of the run queue (position i), TickTime, FiberBase::Resume *)
+Lemma inv_pick : forall f i t s, inv s -> cur s = None -> nth_error (runq s) i = Some f -> (now s <= t)%N ->
+  inv (updf f (fun r => with_pend (with_fs r FRunning) (match pend r with PSleep _ => PNone | p => p end))
+         (set_now (set_cur (set_runq s (remove_nth i (runq s))) (Some f)) t)) /\
+  (forall ns, pendO s f = Some (PSleep ns) -> (ns <= now s)%N).
+Proof.
+  intros f i t s I Hc Hn Ht.
+  assert (Hfr : cnt f (runq s) >= 1).
+  { pose proof (cnt_remove_nth f f i (runq s) Hn) as H. rewrite Nat.eqb_refl in H. simpl in H. lia. }
+  assert (HCf : Cc s f >= 1) by (unfold Cc; lia).
+  assert (Hnc : fsO s f <> Some FCompleted) by (intros H; destruct (iH _ _ I f H); lia).
+  assert (Hearly : forall ns, pendO s f = Some (PSleep ns) -> (ns <= now s)%N).
+  { intros ns P. destruct (iD _ _ I f ns P) as [_ [Hb|[_ Hle]]]; auto.
+    exfalso. apply bhas_scnt in Hb. pose proof (iA _ _ I f) as HA. unfold Cc in HA. lia. }
+  split; [|exact Hearly].
+  set (sq := set_now (set_cur (set_runq s (remove_nth i (runq s))) (Some f)) t).
+  set (u := fun r => with_pend (with_fs r FRunning) (match pend r with PSleep _ => PNone | p => p end)).
+  set (s' := updf f u sq).
+  destruct (fobs_upd f u sq s' eq_refl) as (Ho & Hf1 & Hf2 & Hf3 & Hk).
+  change (fibers sq) with (fibers s) in *.
+  assert (HC : forall g, Cc s' g = Cc s g).
+  { intros g. unfold Cc. simpl. rewrite Hc. simpl. pose proof (cnt_remove_nth g f i (runq s) Hn). lia. }
+  assert (HW : forall g, Wc s' g = Wc s g) by reflexivity.
+  assert (Hfs : forall g, fsO s' g = Some FCompleted <-> fsO s g = Some FCompleted).
+  { intros g. destruct (Nat.eq_dec g f) as [->|Hne].
+    - rewrite Hf1. unfold fsO in *. destruct (fget f (fibers s)); simpl; [|tauto]. split; [discriminate|]. intros H. exfalso. apply Hnc. exact H.
+    - destruct (Ho g Hne) as (A & _). change (fsO sq g) with (fsO s g) in A. rewrite A. tauto. }
+  assert (Hfn : forall g, fsO s' g = None <-> fsO s g = None).
+  { intros g. destruct (Nat.eq_dec g f) as [->|Hne].
+    - rewrite Hf1. unfold fsO. destruct (fget f (fibers s)); simpl; [split; discriminate|tauto].
+    - destruct (Ho g Hne) as (A & _). change (fsO sq g) with (fsO s g) in A. rewrite A. tauto. }
+  assert (Hpo : forall g, g <> f -> pendO s' g = pendO s g).
+  { intros g Hne. destruct (Ho g Hne) as (_ & A & _). exact A. }
+  assert (Hpt : forall q ns, pendO s f = Some (PTimed q ns) -> pendO s' f = Some (PTimed q ns)).
+  { intros q ns. rewrite Hf2. unfold pendO. destruct (fget f (fibers s)) as [r|]; simpl; [|discriminate].
+    intros H. inversion H as [H1]. unfold u. simpl. rewrite H1. reflexivity. }
+  assert (Hps : forall ns, pendO s' f <> Some (PSleep ns)).
+  { intros ns. rewrite Hf2. destruct (fget f (fibers s)) as [r|]; simpl; [|discriminate].
+    unfold u. simpl. destruct (pend r); discriminate. }
+  assert (Hjo : forall g, joinO s' g = joinO s g).
+  { intros g. destruct (Nat.eq_dec g f) as [->|Hne].
+    - rewrite Hf3. unfold joinO. destruct (fget f (fibers s)); auto.
+    - destruct (Ho g Hne) as (_ & _ & A). exact A. }
+  assert (HPJ : forall g j, pjoin s' g j <-> pjoin s g j) by (intros; unfold pjoin; rewrite Hjo, Hfs; tauto).
+  constructor.
+  - intros g. rewrite HC. apply I.
+  - intros g. rewrite HW. apply I.
+  - intros g H1 H2. rewrite HW in H1. rewrite HC in H2. destruct (iC _ _ I g H1 H2) as (q & ns & P & Q).
+    exists q, ns. split; [|exact Q]. destruct (Nat.eq_dec g f) as [->|Hne]; [apply Hpt; exact P|rewrite Hpo by auto; exact P].
+  - intros g ns P. destruct (Nat.eq_dec g f) as [->|Hne]; [exfalso; apply (Hps ns P)|].
+    rewrite Hpo in P by auto. rewrite HW. destruct (iD _ _ I g ns P) as [D1 D2]. split; auto.
+    destruct D2 as [D2|[D2 D3]]; [left; exact D2|]. right. simpl.
+    pose proof (cnt_remove_nth g f i (runq s) Hn) as H. destruct (Nat.eqb_spec f g); [congruence|]. simpl in H. split; [lia|lia].
+  - intros g Hg. apply Hfs in Hg. rewrite HC, HW. apply (iH _ _ I g Hg).
+  - intros g j Hpj. apply HPJ in Hpj. destruct (iE _ _ I _ _ Hpj) as (E1 & E2 & E3 & E4).
+    rewrite HC, HW, Hfs. split; [exact E1|]. split; [exact E2|]. split; [intros g' Hg'; apply E3, HPJ, Hg'|exact E4].
+  - intros k Hk'. destruct (iF _ _ I k Hk') as (G1 & G2 & G3 & G4).
+    rewrite HC, HW, Hfn. split; [exact G1|]. split; [exact G2|]. split; [exact G3|]. intros g. rewrite Hjo. apply G4.
+  - rewrite Hk. apply (iK _ _ I).
+Qed.
+
+(* ------------------------------------------------------------------ assembling the steps *)
+Lemma running_fields : forall f s s', cur s' = cur s -> fibers s' = fibers s -> running s f -> running s' f.
+Proof. intros f s s' Hc Hf [R1 R2]. unfold running, pendO. rewrite Hc, Hf. split; auto. Qed.
+
+Lemma running_irrelevant : forall f u s,
+  (forall r, pend (u r) = pend r) -> running s f -> running (updf f u s) f.
+Proof.
+  intros f u s Hu [R1 R2]. split; auto. intros q ns. unfold pendO, updf. simpl. rewrite fget_fupd, Nat.eqb_refl.
+  unfold pendO in R2. destruct (fget f (fibers s)) as [r|]; simpl; [|discriminate]. rewrite Hu. apply R2.
+Qed.
+
+Section Steps.
+
+Variable cf : cfg.
+Variable draws : nat -> N.
+
+Lemma inv_crash : forall c s, inv s -> inv (fst (crash c s)).
+Proof. intros c s I. apply (inv_fields s); auto. Qed.
+
+Lemma inv_do_exit : forall f r s, inv s -> running s f -> fget f (fibers s) = Some r -> inv (do_exit f r s).
+Proof.
+  intros f r s I R Hr. destruct (running_facts alloc s f I R) as (F1 & F2 & F3 & F4 & F5 & F6 & F7).
+  pose proof R as [Hc Hp].
+  set (sa := set_cur s None).
+  assert (Ia : inv sa) by (apply (inv_cur_drop f); auto).
+  assert (HCa : Cc sa f = 0) by (unfold Cc; simpl; lia).
+  assert (HPa : forall g0, ~ pjoin sa g0 f) by (intros g0 H; apply (F6 g0 H)).
+  set (sb := updf f (fun r' => with_fs r' FCompleted) sa).
+  assert (Ib : inv sb) by (apply inv_complete; auto).
+  assert (Hfsb : fsO sb f = Some FCompleted).
+  { unfold fsO, sb, updf. simpl. rewrite fget_fupd, Nat.eqb_refl, Hr. reflexivity. }
+  (* the joiner, if any, is scheduled *)
+  assert (Hsched : forall j, joiner r = Some j -> inv (schedule j sb) /\ fsO (schedule j sb) f = Some FCompleted).
+  { intros j Hj.
+    assert (Hpj : pjoin s f j).
+    { unfold pjoin, joinO, fsO. rewrite Hr. simpl. split; [rewrite Hj; auto|].
+      intros H. apply F4. unfold fsO. rewrite Hr. exact H. }
+    destruct (iE _ _ I _ _ Hpj) as (E1 & E2 & E3 & E4).
+    assert (Hjf : j <> f) by (intro; subst; pose proof (Cc_cur s f Hc); lia).
+    assert (Hfo : forall h, h <> f -> fget h (fibers sb) = fget h (fibers s)).
+    { intros h Hne. unfold sb, updf. simpl. rewrite fget_fupd. destruct (Nat.eqb_spec f h); [congruence|auto]. }
+    split.
+    - apply inv_enq; auto.
+      + unfold Cc in *. simpl. rewrite Hc in E1. simpl in E1. lia.
+      + unfold fsO. rewrite Hfo by auto. exact E4.
+      + intros g0 [A B]. destruct (Nat.eq_dec g0 f) as [->|Hne].
+        * apply B. exact Hfsb.
+        * assert (pjoin s g0 j) by (unfold pjoin, joinO, fsO in *; rewrite Hfo in A, B by auto; split; auto).
+          apply Hne. apply E3. auto.
+      + intros k Hk E. destruct (iF _ _ I k Hk) as (_ & _ & _ & G4). apply (G4 f). unfold joinO. rewrite Hr. simpl. rewrite Hj, E. auto.
+    - unfold fsO, schedule, updf. simpl. rewrite fget_fupd. destruct (Nat.eqb_spec j f); [congruence|]. exact Hfsb. }
+  unfold do_exit.
+  destruct (joiner r) as [j|] eqn:Ej; destruct (alive r) eqn:Ea.
+  - destruct (Hsched j eq_refl) as [Is _]. exact Is.
+  - apply (inv_del f sb); auto.
+  - exact Ib.
+  - apply (inv_del f sb); auto.
+Qed.
+
+Lemma inv_timed_finish : forall f q ns s, inv s -> cur s = Some f -> pendO s f = Some (PTimed q ns) ->
+  inv (fst (timed_finish f q ns s)).
+Proof.
+  intros f q ns s I Hc Hp. unfold timed_finish. cbn [fst].
+  set (s1 := match sm_find ns (sleepm s) with
+             | Some b => if is_nil b then set_sleepm s (sm_erase ns (sleepm s)) else s
+             | None => s
+             end).
+  assert (I1 : inv s1).
+  { unfold s1. destruct (sm_find ns (sleepm s)) as [b|] eqn:E; auto. destruct (is_nil b) eqn:En; auto.
+    apply (inv_erase_bucket ns b); auto. }
+  assert (Hc1 : cur s1 = Some f).
+  { unfold s1. destruct (sm_find ns (sleepm s)) as [b|]; auto. destruct (is_nil b); auto. }
+  assert (Hf1 : fibers s1 = fibers s).
+  { unfold s1. destruct (sm_find ns (sleepm s)) as [b|]; auto. destruct (is_nil b); auto. }
+  assert (Hp1 : pendO s1 f = Some (PTimed q ns)) by (unfold pendO; rewrite Hf1; exact Hp).
+  pose proof (Cc_cur s1 f Hc1) as HC1.
+  set (l := wq q s1).
+  assert (I2 : inv (set_wq q (rm f l) s1)).
+  { apply inv_wq_shrink; auto. intros h. rewrite cnt_rm. fold l. destruct (Nat.eqb h f); auto. }
+  assert (HW2 : Wc (set_wq q (rm f l) s1) f = 0).
+  { pose proof (Wc_set_wq f q (rm f l) s1) as H. rewrite cnt_rm, Nat.eqb_refl in H. fold l in H.
+    pose proof (iB _ _ I1 f) as HB. pose proof (wq_le_Wc f q s1) as Hle. fold l in Hle.
+    destruct (Wc s1 f) eqn:EW; [lia|].
+    destruct (iC _ _ I1 f) as (q' & ns' & P & Q); [lia|lia|].
+    rewrite Hp1 in P. inversion P. subst q' ns'. fold l in Q. lia. }
+  destruct (mem f l) eqn:Em.
+  - apply inv_clear_pend; auto.
+  - apply mem_cnt0 in Em.
+    assert (HW1 : Wc s1 f = 0).
+    { destruct (Wc s1 f) eqn:EW; auto. exfalso.
+      destruct (iC _ _ I1 f) as (q' & ns' & P & Q); [lia|lia|].
+      rewrite Hp1 in P. inversion P. subst q' ns'. fold l in Q. lia. }
+    apply inv_clear_pend; auto.
+Qed.
+
+Lemma inv_do_action : forall f r a rest s, inv s -> running s f -> fget f (fibers s) = Some r ->
+  inv (fst (do_action cf draws alloc f r a rest s)).
+Proof.
+  intros f r a rest s I R Hr.
+  set (pop := updf f (fun r' => with_prog r' rest) s).
+  assert (Ip : inv pop) by (apply inv_irrelevant; auto).
+  assert (Rp : running pop f) by (apply running_irrelevant; auto).
+  assert (Hrp : fget f (fibers pop) <> None).
+  { unfold pop, updf. simpl. rewrite fget_fupd, Nat.eqb_refl, Hr. discriminate. }
+  destruct (running_facts alloc s f I R) as (F1 & F2 & F3 & F4 & F5 & F6 & F7).
+  destruct a; unfold do_action; fold pop.
+  - (* AInject *)
+    unfold inject, draw. destruct (freq cf <=? inj pop)%N; cbn [fst].
+    + set (s2 := set_inj (set_rc pop (S (rc pop))) (draws (rc pop) mod freq cf)%N).
+      apply (inv_yield f s2).
+      * apply (inv_fields pop); auto.
+      * apply (running_fields f pop); auto.
+    + apply (inv_fields pop); auto.
+  - (* AWeak *)
+    destruct (casf cf =? 0)%N; cbn [fst].
+    + apply inv_irrelevant; auto.
+    + unfold draw. cbn [fst snd]. apply inv_irrelevant; auto. apply (inv_fields pop); auto.
+  - (* ALogCas *) exact Ip.
+  - (* AYield *) apply inv_yield; auto.
+  - (* ASleep *)
+    destruct (N.leb_spec (now s + d) (now s)); cbn [fst]; [exact Ip|].
+    apply (inv_sleep f (now s + d)%N pop); auto.
+  - (* APark *) apply inv_park; auto.
+  - (* ATimedPark *)
+    unfold draw. cbn [fst snd].
+    set (s1 := set_wq q (wq q pop ++ [f]) pop).
+    set (v := (draws (rc s1) mod slpt cf)%N).
+    set (ns := (now s + d + v)%N).
+    set (s3 := updf f (fun r' => with_pend r' (PTimed q ns)) (set_rc s1 (S (rc s1)))).
+    assert (I3 : inv s3).
+    { apply (inv_fields (updf f (fun r' => with_pend r' (PTimed q ns)) s1)); auto.
+      apply inv_tpark; auto. }
+    destruct (ns <=? now s)%N; cbn [fst]; [exact I3|].
+    apply inv_to_bucket; auto. destruct Rp as [Hc _]. exact Hc.
+  - (* ALogTimed *) exact Ip.
+  - (* ANotifyOne *) apply (inv_notify_one cf draws f); auto.
+  - (* ANotifyAll *) cbn [fst]. apply (inv_notify_all f); auto.
+  - (* ALock *)
+    destruct (existsb (Nat.eqb m) (locked s)); cbn [fst].
+    + apply inv_park; auto.
+    + apply (inv_fields pop); auto.
+  - (* AUnlock *)
+    apply (inv_notify_one cf draws f).
+    + apply (inv_fields pop); auto.
+    + apply (running_fields f pop); auto.
+  - (* ASpawn *)
+    destruct (sget slot (slots s)); [apply inv_crash; auto|]. cbn [fst].
+    apply (inv_spawn slot body pop Ip).
+  - (* AJoin *)
+    destruct (sget slot (slots s)) as [g|]; [|apply inv_crash; auto].
+    destruct (Nat.eqb_spec g f) as [Heq|Hgf]; [apply inv_crash; auto|].
+    destruct (fget g (fibers s)) as [rg|] eqn:Eg; [|apply inv_crash; auto].
+    destruct (fstate_eqb (fs rg) FCompleted) eqn:Ec; cbn [fst].
+    + apply (inv_del g pop); auto.
+      unfold fsO, pop, updf. simpl. rewrite fget_fupd. destruct (Nat.eqb_spec f g); [congruence|]. rewrite Eg. simpl.
+      destruct (fs rg); try discriminate. reflexivity.
+    + destruct R as [Hc Hp].
+      set (sa := set_cur s None).
+      assert (Ia : inv sa) by (apply (inv_cur_drop f); [auto|split; auto]).
+      assert (Ib : inv (updf g (fun r' => with_joiner r' (Some f)) sa)).
+      { apply inv_set_joiner; auto. unfold Cc. simpl. lia. }
+      apply (inv_setfs f FSuspended) in Ib; [exact Ib|discriminate|].
+      unfold fsO, updf. simpl. rewrite fget_fupd. destruct (Nat.eqb_spec g f); [congruence|]. exact F4.
+  - (* ADetach *)
+    destruct (sget slot (slots s)) as [g|]; [|apply inv_crash; auto].
+    destruct (Nat.eqb_spec g f) as [Heq|Hgf]; [apply inv_crash; auto|].
+    destruct (fget g (fibers s)) as [rg|] eqn:Eg; [|apply inv_crash; auto].
+    destruct (fstate_eqb (fs rg) FCompleted) eqn:Ec; cbn [fst].
+    + apply (inv_del g pop); auto.
+      unfold fsO, pop, updf. simpl. rewrite fget_fupd. destruct (Nat.eqb_spec f g); [congruence|]. rewrite Eg. simpl.
+      destruct (fs rg); try discriminate. reflexivity.
+    + apply inv_irrelevant; auto. apply (inv_fields pop); auto.
+  - (* ACheck *) exact Ip.
+Qed.
+
+Lemma inv_fiber_step : forall f s, inv s -> cur s = Some f -> inv (fst (fiber_step cf draws alloc f s)).
+Proof.
+  intros f s I Hc. unfold fiber_step. destruct (fget f (fibers s)) as [r|] eqn:Er; [|apply inv_crash; auto].
+  assert (Hpo : pendO s f = Some (pend r)) by (unfold pendO; rewrite Er; reflexivity).
+  destruct (pend r) as [|ns|q ns] eqn:Ep.
+  - assert (R : running s f) by (split; auto; intros q ns; rewrite Hpo; discriminate).
+    destruct (prog r) as [|a rest]; [apply inv_do_exit; auto|apply inv_do_action; auto].
+  - assert (R : running s f) by (split; auto; intros q ns'; rewrite Hpo; discriminate).
+    destruct (prog r) as [|a rest]; [apply inv_do_exit; auto|apply inv_do_action; auto].
+  - apply inv_timed_finish; auto.
+Qed.
+
+Lemma inv_step : forall s s' o, inv s -> step cf draws alloc s = Some (s', o) -> inv s'.
+Proof.
+  intros s s' o I. unfold step. destruct (crashed s); [discriminate|].
+  destruct (cur s) as [f|] eqn:Hc.
+  - intros H. inversion H as [H1]. pose proof (inv_fiber_step f s I Hc) as H2. rewrite H1 in H2. exact H2.
+  - unfold sched_step. destruct (is_nil (runq s) && is_nil (sleepm s)); [discriminate|].
+    set (s2 := wakeup (advance s)).
+    assert (I2 : inv s2) by (apply inv_wakeup, inv_advance; exact I).
+    assert (Hc2 : cur s2 = None).
+    { unfold s2, wakeup, advance. simpl. destruct (is_nil (runq s)); auto.
+      destruct (first_key (sleepm s)); auto. destruct (now s <=? n)%N; auto. }
+    unfold resume_next. destruct (is_nil (runq s2)).
+    + intros H. inversion H. apply (inv_fields s2); auto.
+    + unfold poll, draw.
+      set (i := poll_index cf (length (runq s2)) (draws (rc s2) mod (2 * pick cf))%N).
+      destruct (nth_error (runq s2) i) as [f|] eqn:En; intros H; inversion H; clear H.
+      * set (s3 := set_rc s2 (S (rc s2))).
+        assert (I3 : inv s3) by (apply (inv_fields s2); auto).
+        destruct (inv_pick f i (now s3 + tick cf)%N s3 I3 Hc2 En) as [Ip _]; [lia|]. exact Ip.
+      * apply (inv_fields s2); auto.
+Qed.
+
+End Steps.
+
 End Moves.
+
+(* ------------------------------------------------------------------ consequences *)
+Definition snodes (s : st) : list fid :=
+  (match cur s with Some f => [f] | None => [] end) ++ runq s ++ flat_map snd (sleepm s).
+Definition wnodes (s : st) : list fid := flat_map snd (waitq s).
+
+Lemma cnt_snodes : forall s f, cnt f (snodes s) = Cc s f.
+Proof.
+  intros s f. unfold snodes, Cc. rewrite !cnt_app.
+  assert (H1 : cnt f (match cur s with Some f0 => [f0] | None => [] end) = ccnt f (cur s)) by (destruct (cur s); simpl; lia).
+  assert (H2 : cnt f (flat_map snd (sleepm s)) = scnt f (sleepm s)).
+  { induction (sleepm s) as [|[k b] m IH]; simpl; auto. rewrite cnt_app, IH. auto. }
+  lia.
+Qed.
+
+Lemma cnt_wnodes : forall s f, cnt f (wnodes s) = Wc s f.
+Proof.
+  intros s f. unfold wnodes, Wc. induction (waitq s) as [|[q b] w IH]; simpl; auto. rewrite cnt_app, IH. auto.
+Qed.
+
+Lemma cnt_le1_nodup : forall l, (forall f, cnt f l <= 1) -> NoDup l.
+Proof.
+  induction l as [|x l IH]; intros H; constructor.
+  - intros Hin. specialize (H x). simpl in H. rewrite Nat.eqb_refl in H. simpl in H.
+    assert (cnt x l >= 1).
+    { clear -Hin. induction l as [|y l IH]; simpl in *; [tauto|]. destruct Hin as [->|Hin].
+      - rewrite Nat.eqb_refl. simpl. lia.
+      - specialize (IH Hin). lia. }
+    lia.
+  - apply IH. intros f. specialize (H f). simpl in H. lia.
+Qed.
+
+Section Reach.
+
+Variable cf : cfg.
+Variable draws : nat -> N.
+Variable alloc : nat -> fid.
+Hypothesis alloc_inj : forall a b, alloc a = alloc b -> a = b.
+
+Lemma inv_steps : forall fuel s, inv alloc s -> inv alloc (steps cf draws alloc fuel s).
+Proof.
+  induction fuel as [|fuel IH]; intros s I; cbn [steps]; auto.
+  destruct (step cf draws alloc s) as [[s' o]|] eqn:E; auto.
+  apply IH. apply (inv_step alloc alloc_inj cf draws s s' o I E).
+Qed.
+
+(* the two kinds of start state: a driver that has just been created / a driver that is running alone *)
+Lemma inv_start : forall t d (r : fiber) c rc0 inj0 n0 rq,
+  (forall k, n0 <= k -> alloc k <> d) -> pend r = PNone -> joiner r = None -> fs r <> FCompleted ->
+  ((c = None /\ rq = [d]) \/ (c = Some d /\ rq = [])) ->
+  inv alloc {| now := t; runq := rq; sleepm := []; waitq := []; locked := []; fibers := [(d, r)]; slots := [];
+               cur := c; rc := rc0; inj := inj0; nsp := n0; crashed := false |}.
+Proof.
+  intros t d r c rc0 inj0 n0 rq Hfr Hp Hj Hf Hc.
+  set (s0 := {| now := t; runq := rq; sleepm := []; waitq := []; locked := []; fibers := [(d, r)]; slots := [];
+                cur := c; rc := rc0; inj := inj0; nsp := n0; crashed := false |}).
+  assert (HC : forall f, Cc s0 f = b2n (Nat.eqb d f)).
+  { intros f. unfold Cc. simpl. destruct Hc as [[-> ->]|[-> ->]]; simpl; lia. }
+  assert (HW : forall f, Wc s0 f = 0) by reflexivity.
+  assert (Hfs : forall g, fsO s0 g = if Nat.eqb d g then Some (fs r) else None).
+  { intros g. unfold fsO. simpl. destruct (Nat.eqb d g); reflexivity. }
+  assert (Hpo : forall g, pendO s0 g = if Nat.eqb d g then Some PNone else None).
+  { intros g. unfold pendO. simpl. destruct (Nat.eqb d g); simpl; [rewrite Hp|]; reflexivity. }
+  assert (Hjo : forall g, joinO s0 g = if Nat.eqb d g then Some None else None).
+  { intros g. unfold joinO. simpl. destruct (Nat.eqb d g); simpl; [rewrite Hj|]; reflexivity. }
+  assert (HPJ : forall g j, ~ pjoin s0 g j).
+  { intros g j [A _]. rewrite Hjo in A. destruct (Nat.eqb d g); discriminate. }
+  constructor.
+  - intros f. rewrite HC. destruct (Nat.eqb d f); simpl; lia.
+  - intros f. rewrite HW. lia.
+  - intros f H. rewrite HW in H. lia.
+  - intros f ns P. rewrite Hpo in P. destruct (Nat.eqb d f); discriminate.
+  - intros g H. rewrite Hfs in H. destruct (Nat.eqb d g); [|discriminate]. inversion H. congruence.
+  - intros g j H. exfalso. apply (HPJ g j H).
+  - intros k Hk. pose proof (Hfr k Hk) as Hne. rewrite HC, HW, Hfs. destruct (Nat.eqb_spec d (alloc k)); [congruence|]. simpl.
+    split; [reflexivity|]. split; [reflexivity|]. split; [reflexivity|].
+    intros g. rewrite Hjo. destruct (Nat.eqb d g); discriminate.
+  - simpl. constructor; [intros []|constructor].
+Qed.
+
+Lemma inv_init : forall t d p rc0 inj0 n0, (forall k, n0 <= k -> alloc k <> d) -> inv alloc (init t d p rc0 inj0 n0).
+Proof.
+  intros. unfold init. apply inv_start; auto; try discriminate.
+Qed.
+
+Lemma inv_quiescent : forall t d p rc0 inj0 n0, (forall k, n0 <= k -> alloc k <> d) ->
+  inv alloc (quiescent t d p rc0 inj0 n0).
+Proof.
+  intros. unfold quiescent. apply inv_start; auto; try discriminate.
+Qed.
+
+(* No fiber is in two queues: in every state of every run, the scheduler node of a fiber (current fiber, run queue,
+   sleep buckets) is linked at most once, and so is its wait-queue node. *)
+Theorem no_fiber_in_two_queues : forall s, inv alloc s -> NoDup (snodes s) /\ NoDup (wnodes s).
+Proof.
+  intros s I. split; apply cnt_le1_nodup; intros f.
+  - rewrite cnt_snodes. apply (iA _ _ I).
+  - rewrite cnt_wnodes. apply (iB _ _ I).
+Qed.
+
+(* A sleeper never resumes before its deadline: when the scheduler makes f the current fiber and f was in a plain
+   sleep (this_thread::sleep_for) with deadline ns, the clock shows at least ns. *)
+Theorem sleeper_not_early : forall s s' o f ns, inv alloc s ->
+  step cf draws alloc s = Some (s', o) -> cur s = None -> cur s' = Some f ->
+  pendO s f = Some (PSleep ns) -> (ns <= now s')%N.
+Proof.
+  intros s s' o f ns I. unfold step. destruct (crashed s); [discriminate|].
+  intros H Hc Hc' P. rewrite Hc in H. unfold sched_step in H.
+  destruct (is_nil (runq s) && is_nil (sleepm s)); [discriminate|].
+  set (s2 := wakeup (advance s)) in *.
+  assert (I2 : inv alloc s2) by (apply inv_wakeup, inv_advance; exact I).
+  assert (Hc2 : cur s2 = None).
+  { unfold s2, wakeup, advance. simpl. destruct (is_nil (runq s)); auto.
+    destruct (first_key (sleepm s)); auto. destruct (now s <=? n)%N; auto. }
+  assert (Hf2 : fibers s2 = fibers s).
+  { unfold s2, wakeup, advance. simpl. destruct (is_nil (runq s)); auto.
+    destruct (first_key (sleepm s)); auto. destruct (now s <=? n)%N; auto. }
+  unfold resume_next in H. destruct (is_nil (runq s2)).
+  - unfold crash in H. inversion H as [[Hs' Ho]]. rewrite <- Hs' in Hc'. change (cur s2 = Some f) in Hc'. congruence.
+  - unfold poll, draw in H.
+    set (i := poll_index cf (length (runq s2)) (draws (rc s2) mod (2 * pick cf))%N) in *.
+    destruct (nth_error (runq s2) i) as [g|] eqn:En; inversion H; clear H; subst s'.
+    + simpl in Hc'. inversion Hc'. subst g. simpl.
+      set (s3 := set_rc s2 (S (rc s2))).
+      assert (I3 : inv alloc s3) by (apply (inv_fields alloc s2); auto).
+      destruct (inv_pick alloc f i (now s3 + tick cf)%N s3 I3 Hc2 En) as [_ He]; [lia|].
+      assert (P3 : pendO s3 f = Some (PSleep ns)) by (unfold pendO; change (fibers s3) with (fibers s2); rewrite Hf2; exact P).
+      specialize (He ns P3). change (now s3) with (now (advance s)) in He. lia.
+    + change (cur s2 = Some f) in Hc'. congruence.
+Qed.
+
+End Reach.
+
+(* the statements for runs that start when the driver thread is created *)
+Theorem two_queues_from_init : forall cf draws alloc, (forall a b, alloc a = alloc b -> a = b) ->
+  forall t d p rc0 inj0 n0, (forall k, n0 <= k -> alloc k <> d) ->
+  forall fuel, NoDup (snodes (steps cf draws alloc fuel (init t d p rc0 inj0 n0))) /\
+               NoDup (wnodes (steps cf draws alloc fuel (init t d p rc0 inj0 n0))).
+Proof.
+  intros cf draws alloc Hinj t d p rc0 inj0 n0 Hfr fuel.
+  apply (no_fiber_in_two_queues alloc). apply inv_steps; auto. apply inv_init; auto.
+Qed.
+
+Theorem sleeper_from_init : forall cf draws alloc, (forall a b, alloc a = alloc b -> a = b) ->
+  forall t d p rc0 inj0 n0, (forall k, n0 <= k -> alloc k <> d) ->
+  forall fuel s' o f ns,
+  step cf draws alloc (steps cf draws alloc fuel (init t d p rc0 inj0 n0)) = Some (s', o) ->
+  cur (steps cf draws alloc fuel (init t d p rc0 inj0 n0)) = None -> cur s' = Some f ->
+  pendO (steps cf draws alloc fuel (init t d p rc0 inj0 n0)) f = Some (PSleep ns) ->
+  (ns <= now s')%N.
+Proof.
+  intros cf draws alloc Hinj t d p rc0 inj0 n0 Hfr fuel s' o f ns H1 H2 H3 H4.
+  apply (sleeper_not_early cf draws alloc Hinj (steps cf draws alloc fuel (init t d p rc0 inj0 n0)) s' o f ns); auto.
+  apply inv_steps; auto. apply inv_init; auto.
+Qed.
+
+(* ... and for runs that continue from a quiescent point (a restored run) *)
+Theorem two_queues_from_quiescent : forall cf draws alloc, (forall a b, alloc a = alloc b -> a = b) ->
+  forall t d p rc0 inj0 n0, (forall k, n0 <= k -> alloc k <> d) ->
+  forall fuel, NoDup (snodes (steps cf draws alloc fuel (quiescent t d p rc0 inj0 n0))) /\
+               NoDup (wnodes (steps cf draws alloc fuel (quiescent t d p rc0 inj0 n0))).
+Proof.
+  intros cf draws alloc Hinj t d p rc0 inj0 n0 Hfr fuel.
+  apply (no_fiber_in_two_queues alloc). apply inv_steps; auto. apply inv_quiescent; auto.
+Qed.
